@@ -1234,7 +1234,9 @@ class Authorization(Endpoint):
         :return: dictionary
         """
 
-        if "error" in request:
+        # What parse_request hands on when it refused the request. A request that merely carries
+        # a parameter called "error" is not such a message.
+        if isinstance(request, oauth2.ResponseMessage) and "error" in request:
             return request
 
         _cid = request["client_id"]
